@@ -443,6 +443,11 @@ func scenarios() []*explore.Scenario {
 				add(p, 2, 3)
 			}
 		}
+		// a tiny queue that overflows: five accepts against queue capacity 2 with consumers that may stall
+		o := params{memCap: mem, queueCap: 2, maxBuf: 1000, dirOK: true, consumerAlt: 5}
+		o.gens = [][]int{{4, 1, 9, 1, 4}, {1}}
+		o.name = fmt.Sprintf("dir/mem%d/q2/max1000/overflow", mem)
+		add(o, 1, 2)
 		// longer first generation, three generations
 		p := params{memCap: mem, queueCap: 50, maxBuf: 10, dirOK: true, consumerAlt: 5}
 		p.gens = [][]int{{4, 4, 1, 4}, {1}, {}}
